@@ -379,13 +379,14 @@ class Report:
 
 
 def parse_args(argv):
-    a = {"prop": argv[1].upper(), "seed": 20260930, "tier": "quick", "out": None, "budget": 1, "corpus": os.path.join(VERIF, "corpus")}
+    a = {"prop": argv[1].upper(), "seed": 20260930, "tier": "quick", "out": None, "budget": 1, "corpus": os.path.join(VERIF, "corpus"),
+         "current": None}
     i = 2
     while i < len(argv):
         k = argv[i]
         if k in ("--seed", "--budget"):
             a[k[2:]] = int(argv[i + 1])
-        elif k in ("--tier", "--out", "--corpus"):
+        elif k in ("--tier", "--out", "--corpus", "--current"):
             a[k[2:]] = argv[i + 1]
         i += 2
     return a
